@@ -34,6 +34,7 @@ type Exec struct {
 	Transport string   `json:"transport"` // share (T1) | gob (T2) | files (T3, vet only)
 	Roots     []string `json:"roots"`     // import paths named on the command line, in order
 	Sched     sched.Config
+	StallFile string `json:"stall_file,omitempty"` // the first read of this file stalls (slow disk) in this execution
 	ParseSeed uint64 `json:"parse_seed,omitempty"` // checker: seeded parse order of the files (0 = listed order)
 	Rerun     int    `json:"rerun"`                // vet: index of a unit executed twice (cache miss), -1 = none
 	Fork      bool   `json:"fork"`
@@ -90,6 +91,9 @@ type ExecStats struct {
 	Reads                int
 	Units                int
 	LatentFactMismatch   int
+	Stalls               int
+	StallFile            string // the first read of this file stalls in this execution
+	stalled              bool
 	FactImportHits       int
 	AllPackageFactsCalls int
 }
@@ -99,6 +103,16 @@ type ExecStats struct {
 //
 //go:norace
 func (st *ExecStats) bump(p *int) { *p++ }
+
+//go:norace
+func (st *ExecStats) takeStall(name string) bool {
+	if st.StallFile == "" || st.stalled || name != st.StallFile {
+		return false
+	}
+	st.stalled = true
+	st.Stalls++
+	return true
+}
 
 // RunChecker executes the standalone driver over the loaded world.
 func RunChecker(l *Loaded, ex *Exec, ch sched.Chooser) (*Outcome, *ExecStats, error) {
@@ -110,7 +124,7 @@ func RunChecker(l *Loaded, ex *Exec, ch sched.Chooser) (*Outcome, *ExecStats, er
 		return nil, nil, fmt.Errorf("analysis.Validate: %v", err)
 	}
 	s := sched.New(ch, ex.Sched)
-	st := &ExecStats{}
+	st := &ExecStats{StallFile: ex.StallFile}
 	type key struct {
 		a   *analysis.Analyzer
 		pkg *LPkg
@@ -340,6 +354,9 @@ func execAction(l *Loaded, act *action, gobTransport bool, st *ExecStats) {
 			return nil, fmt.Errorf("open %s: no such file or directory", name)
 		}
 		b = append([]byte(nil), b...)
+		if st.takeStall(name) {
+			b, _ = ApplyReadFault("stall", name, b)
+		}
 		if f, ok := l.ReadFaults[name]; ok {
 			var err error
 			if b, err = ApplyReadFault(f, name, b); err != nil {
